@@ -8,6 +8,7 @@ CONSTANTS
   Fmts = {"bc"}
   NFiles = {1}
   Lazy = {"this"}
+  ProbeMax = 5
   Touches = {"lookup", "getitem"}
   Variant = "getitem_noexpand"
 INVARIANT TypeOK
